@@ -178,6 +178,8 @@ End Fit.
 (* helpers for statements: adding a constant tensor to every sample; re-ordering samples *)
 Definition shift (X c : tensor F) : tensor F :=
   tabulate (shape X) (fun idx => fadd Op (tget X idx) (tget c (tl idx))).
+Definition tadd (a b : tensor F) : tensor F :=
+  tabulate (shape a) (fun idx => fadd Op (tget a idx) (tget b idx)).
 Definition perm_samples (p : list nat) (X : tensor F) : tensor F :=
   tabulate (shape X) (fun idx => tget X (nth (hd 0 idx) p 0 :: tl idx)).
 
